@@ -34,6 +34,8 @@ pub struct Shape {
     pub quit_at: Option<usize>,
     /// one extra thread that sends a message of the wrong type
     pub wrong_type: bool,
+    /// senders use ActorCell::send_serialized (the path remote casts take) instead of send_message
+    pub serialized: bool,
 }
 
 const KEEP: &[&str] = &[
@@ -41,6 +43,15 @@ const KEEP: &[&str] = &[
     "obs.drain_begin", "drain.close", "drain.status", "obs.drain_ret", "obs.consume", "obs.quit",
     "obs.ports_dropped", "status.set", "obs.end", "obs.wrong_ret",
 ];
+
+/// (sender, k) of a received item, whichever way it was sent
+fn decode(b: ractor::message::BoxedMessage) -> (u32, u32) {
+    if let Some(ractor::message::SerializedMessage::Cast { args, .. }) = &b.serialized_msg {
+        return (args[0] as u32, args[1] as u32);
+    }
+    let m = M::from_boxed(b).expect("typed message");
+    (m.0, m.1)
+}
 
 fn kv(k: &str, v: Val) -> (String, Val) {
     (k.to_string(), v)
@@ -56,13 +67,23 @@ pub fn one_run(shape: &Shape, ex: &mut Explorer) -> (Vec<Value>, Value, bool) {
     for s in 0..shape.senders {
         let cell = cell.clone();
         let n = shape.msgs;
+        let serialized = shape.serialized;
         threads.push(HThread {
             role: format!("s{}", s + 1),
             f: Box::new(move || {
                 for k in 1..=n {
                     verif::emit_kv("obs.send_begin", 0, 0, vec![kv("k", Val::I(k as i64))]);
-                    let r = cell.send_message(M(s as u32 + 1, k as u32));
-                    verif::emit_kv("obs.send_ret", 0, i64::from(r.is_ok()), vec![kv("k", Val::I(k as i64))]);
+                    let ok = if serialized {
+                        cell.send_serialized(ractor::message::SerializedMessage::Cast {
+                            variant: "m".into(),
+                            args: vec![s as u8 + 1, k as u8],
+                            metadata: None,
+                        })
+                        .is_ok()
+                    } else {
+                        cell.send_message(M(s as u32 + 1, k as u32)).is_ok()
+                    };
+                    verif::emit_kv("obs.send_ret", 0, i64::from(ok), vec![kv("k", Val::I(k as i64))]);
                 }
             }),
         });
@@ -106,7 +127,7 @@ pub fn one_run(shape: &Shape, ex: &mut Explorer) -> (Vec<Value>, Value, bool) {
                     } else {
                         match d.try_recv() {
                             Recv::Msg(b) => {
-                                let m = M::from_boxed(b).expect("typed message");
+                                let m = decode(b);
                                 verif::emit_kv(
                                     "obs.consume",
                                     0,
@@ -156,7 +177,7 @@ pub fn one_run(shape: &Shape, ex: &mut Explorer) -> (Vec<Value>, Value, bool) {
     loop {
         match d.try_recv() {
             Recv::Msg(b) => {
-                let m = M::from_boxed(b).expect("typed message");
+                let m = decode(b);
                 left.push(json!({"s": format!("s{}", m.0), "k": m.1}));
             }
             Recv::Drain => left.push(json!({"s": "drain", "k": 0})),
@@ -194,18 +215,21 @@ fn cell_set_running(det: &Detached) {
 
 pub fn shapes(tier: &str) -> Vec<Shape> {
     let mut v = vec![
-        Shape { senders: 1, msgs: 2, drainers: 1, turns: 4, quit_at: None, wrong_type: false },
-        Shape { senders: 2, msgs: 1, drainers: 1, turns: 4, quit_at: None, wrong_type: false },
-        Shape { senders: 2, msgs: 1, drainers: 1, turns: 3, quit_at: Some(1), wrong_type: false },
-        Shape { senders: 2, msgs: 2, drainers: 1, turns: 6, quit_at: None, wrong_type: true },
-        Shape { senders: 2, msgs: 1, drainers: 2, turns: 4, quit_at: None, wrong_type: false },
-        Shape { senders: 2, msgs: 2, drainers: 0, turns: 5, quit_at: Some(3), wrong_type: false },
+        Shape { senders: 1, msgs: 2, drainers: 1, turns: 4, quit_at: None, wrong_type: false, serialized: false },
+        Shape { senders: 2, msgs: 1, drainers: 1, turns: 4, quit_at: None, wrong_type: false, serialized: false },
+        Shape { senders: 2, msgs: 1, drainers: 1, turns: 3, quit_at: Some(1), wrong_type: false, serialized: false },
+        Shape { senders: 2, msgs: 2, drainers: 1, turns: 6, quit_at: None, wrong_type: true, serialized: false },
+        Shape { senders: 2, msgs: 1, drainers: 2, turns: 4, quit_at: None, wrong_type: false, serialized: false },
+        Shape { senders: 2, msgs: 2, drainers: 0, turns: 5, quit_at: Some(3), wrong_type: false, serialized: false },
     ];
+    // the serialized path (what a remote cast takes)
+    v.push(Shape { senders: 1, msgs: 2, drainers: 1, turns: 4, quit_at: None, wrong_type: false, serialized: true });
+    v.push(Shape { senders: 2, msgs: 1, drainers: 1, turns: 4, quit_at: None, wrong_type: false, serialized: true });
     if tier == "thorough" {
-        v.push(Shape { senders: 3, msgs: 1, drainers: 2, turns: 5, quit_at: None, wrong_type: false });
-        v.push(Shape { senders: 3, msgs: 2, drainers: 1, turns: 8, quit_at: None, wrong_type: false });
-        v.push(Shape { senders: 2, msgs: 3, drainers: 1, turns: 8, quit_at: Some(5), wrong_type: true });
-        v.push(Shape { senders: 3, msgs: 3, drainers: 2, turns: 11, quit_at: None, wrong_type: false });
+        v.push(Shape { senders: 3, msgs: 1, drainers: 2, turns: 5, quit_at: None, wrong_type: false, serialized: false });
+        v.push(Shape { senders: 3, msgs: 2, drainers: 1, turns: 8, quit_at: None, wrong_type: false, serialized: false });
+        v.push(Shape { senders: 2, msgs: 3, drainers: 1, turns: 8, quit_at: Some(5), wrong_type: true, serialized: false });
+        v.push(Shape { senders: 3, msgs: 3, drainers: 2, turns: 11, quit_at: None, wrong_type: false, serialized: false });
     }
     v
 }
